@@ -100,6 +100,62 @@ def badSolutionCount (V : VM) (c : Coin) (s : State) : Except String Nat :=
       | .error t => .error t
       | .ok b => .ok (if b then n else n + 1)) 0
 
+/-! ## how `unspents` gets populated -/
+
+inductive PopErr | keyError | indexError | valueError
+  deriving DecidableEq, Repr
+
+def PopErr.tag : PopErr → String
+  | .keyError => "KeyError" | .indexError => "IndexError" | .valueError => "ValueError"
+
+/-- `l[i]` for a Python int `i`: negative indices count from the end; `none` = `IndexError` -/
+def pyIndex {α : Type} (l : List α) (i : Int) : Option α :=
+  if 0 ≤ i then l[i.toNat]?
+  else if -(l.length : Int) ≤ i then l[((l.length : Int) + i).toNat]?
+  else none
+
+/-- a transaction database: what `tx_db.get(previous_hash)` returns — `none`, or a transaction given by the hash
+its own `hash()` reports and its outputs -/
+abbrev TxDb := Bytes → Option (Bytes × List TxOut)
+
+/-- the output input `t` spends according to the database: the stored transaction must report the hash it is
+filed under, and must have an output at `previous_index` -/
+def dbOutput (db : TxDb) (t : TxIn) : Option TxOut :=
+  match db t.prevHash with
+  | some (h, outs) => if h = t.prevHash then pyIndex outs t.prevIndex else none
+  | none => none
+
+/-- `Tx.unspents_from_db(tx_db, ignore_missing)`: the list assigned to `self.unspents`, or the exception raised (in which
+case `self.unspents` keeps its old value).  `tx.txs_out[previous_index]` raises `IndexError` when the source transaction
+has no such output. -/
+def unspentsFromDb (db : TxDb) (ignoreMissing : Bool) : List TxIn → Except PopErr (List (Option TxOut))
+  | [] => .ok []
+  | t :: ts =>
+    let head : Except PopErr (Option TxOut) :=
+      if t.isCoinbase then .ok none
+      else
+        match db t.prevHash with
+        | some (h, outs) =>
+          if h = t.prevHash then
+            match pyIndex outs t.prevIndex with
+            | some o => .ok (some o)
+            | none => .error .indexError
+          else if ignoreMissing then .ok none else .error .keyError
+        | none => if ignoreMissing then .ok none else .error .keyError
+    match head with
+    | .error e => .error e
+    | .ok u =>
+      match unspentsFromDb db ignoreMissing ts with
+      | .error e => .error e
+      | .ok us => .ok (u :: us)
+
+/-- `Tx.set_unspents(unspents)` -/
+def setUnspents (s : State) (us : List (Option TxOut)) : Except PopErr State :=
+  if us.length ≠ s.tx.ins.length then .error .valueError else .ok { s with us := us }
+
+/-- is `is_solution_ok(idx)` refused by its guard (spent output unknown)? -/
+def guardRefuses (s : State) (idx : Nat) : Bool := decide (s.us.length ≤ idx) || (s.us[idx]?.join).isNone
+
 /-! ## the `sighash_cache` of `checksigs` -/
 
 /-- `if signature_type not in sighash_cache: sighash_cache[signature_type] = f(signature_type)` then the lookup;
